@@ -6,16 +6,19 @@
                                            missing reply becomes an error response)
      core/controlcommands/multiresponse.go consolidateResponses (0 -> nil, 1 -> that response,
                                            else a multi-response)
-     core/task/manager.go                  configureTasks / transitionTasks (nil -> error; single:
-                                           any non-blank error fails; multi: errors split by the
-                                           critical trait), handleMessage(TaskStateMessage,
-                                           TaskStatusMessage)
+     core/task/manager.go                  configureTasks / transitionTasks (no task: success at
+                                           once; nil -> error; single: its error fails iff the task
+                                           is critical; multi: errors split by the critical trait),
+                                           handleMessage(TaskStateMessage, TaskStatusMessage)
      core/environment/transition_*.go      bodies of DEPLOY, CONFIGURE, START_ACTIVITY,
                                            STOP_ACTIVITY, RESET
      core/environment/environment.go       leave_state callback (body error cancels the event)
      core/environment/manager.go           CreateEnvironment (DEPLOY, CONFIGURE, failure tail)
      core/server.go                        ControlEnvironment (error -> GO_ERROR -> forced ERROR;
-                                           the reply carries the error of the GO_ERROR attempt)
+                                           the reply carries the error of the requested transition)
+   Repaired behaviour (fix commits C02-a, C02-a2, C02-b, C02-d): a command with no target succeeds
+   at once, CONFIGURE with no target does not wait, a single response is classified by the
+   critical trait, a failed request returns its error.
    The role status/state folds are those of RoleTree.v (property C11).
    Definitions only; lemmas live in proofs/TaskCmd_proofs.v. *)
 From Verif Require Import Common RoleTree.
@@ -122,13 +125,13 @@ Definition commit (tg : list (nat * rtask)) (oc : list outc) : list (bool * bool
 
 Inductive consolidated :=
 | CNone                                 (* nil response *)
-| CSingle (err : bool)                  (* the only target's own response *)
+| CSingle (r : bool * bool)             (* the only target's own response: (critical, has error) *)
 | CMulti (rs : list (bool * bool)).     (* MesosCommandMultiResponse *)
 
 Definition consolidate (rs : list (bool * bool)) : consolidated :=
   match rs with
   | [] => CNone
-  | [r] => CSingle (snd r)
+  | [r] => CSingle r
   | _ => CMulti rs
   end.
 
@@ -138,12 +141,17 @@ Inductive cres := ROk | RErrNil | RErrSingle | RErrCritical.
 Definition classify (c : consolidated) : cres :=
   match c with
   | CNone => RErrNil
-  | CSingle err => if err then RErrSingle else ROk
+  | CSingle r => if fst r && snd r then RErrSingle else ROk
   | CMulti rs => if existsb (fun r => fst r && snd r) rs then RErrCritical else ROk
   end.
 
+(* no target: transitionTasks returns at once (the CONFIGURE body sends nothing and waits for
+   nothing); otherwise the consolidated response is classified *)
 Definition cmd_result (ts : list rtask) (oc : list outc) : cres :=
-  classify (consolidate (commit (targets ts) oc)).
+  match targets ts with
+  | [] => ROk
+  | tg => classify (consolidate (commit tg oc))
+  end.
 
 Definition res_ok (r : cres) : bool := match r with ROk => true | _ => false end.
 
@@ -193,25 +201,21 @@ Definition cmd_body (e : cev) (oc : list outc) (s : sys) : sys * step_obs :=
         mkSO (N_of_estate (ev_dst e)) false false [src; N_of_estate (ev_dst e)]
              (cmded_view (s_ts s)) (tasks_view ts'))
   else (* body error cancels the event in leave_state: state stays; the server then runs
-          GO_ERROR, which succeeds from a live state, and returns *its* (nil) error *)
+          GO_ERROR, which succeeds from a live state, and returns the body's error *)
        (mkSys E_ERROR ts' (s_ncalls s),
-        mkSO 5 false false [src; 5] (cmded_view (s_ts s)) (tasks_view ts')).
+        mkSO 5 true false [src; 5] (cmded_view (s_ts s)) (tasks_view ts')).
 
 (* RpcServer.ControlEnvironment with one of the four command transitions *)
 Definition api_control (e : cev) (oc : list outc) (s : sys) : sys * step_obs :=
   let src := N_of_estate (s_env s) in
   if negb (estate_beq (s_env s) (ev_src e)) then
     (* looplab: event inappropriate in the current state; no callback runs; then GO_ERROR, and
-       if that is refused too the state is forced and the second error is returned *)
+       if that is refused too the state is forced; the first error is returned *)
     if go_error_ok (s_env s)
     then (mkSys E_ERROR (s_ts s) (s_ncalls s),
-          mkSO 5 false false [src; 5] [] (tasks_view (s_ts s)))
+          mkSO 5 true false [src; 5] [] (tasks_view (s_ts s)))
     else (mkSys E_ERROR (s_ts s) (s_ncalls s),
           mkSO 5 true false [src] [] (tasks_view (s_ts s)))
-  else if is_configure e && no_targets (s_ts s) then
-    (* CONFIGURE with no active task: nothing is sent, the body waits for a
-       TasksStateChangedEvent that never comes *)
-    (s, mkSO src false true [src] [] (tasks_view (s_ts s)))
   else cmd_body e oc s.
 
 (* deployment: every launched-and-running task becomes ACTIVE; DEPLOY succeeds when the root
@@ -235,15 +239,11 @@ Definition create (ds : list tdesc) (ncalls : N) (ls : list launch) (oc : list o
   if negb (deploy_ok ts ncalls) then
     (None, mkSO 0 true false [1; 5; 6] [] [])
   else
-    match targets ts with
-    | [] => (None, mkSO 2 false true [1; 2] [] [])                         (* CONFIGURE hangs *)
-    | _ :: _ =>
-        let ts' := tasks_after CONFIGURE ts oc in
-        if res_ok (cmd_result ts oc)
-        then (Some (mkSys E_CONFIGURED ts' ncalls),
-              mkSO 3 false false [1; 2; 3] (cmded_view ts) (tasks_view ts'))
-        else (None, mkSO 0 true false [1; 2; 5; 6] (cmded_view ts) [])
-    end.
+    let ts' := tasks_after CONFIGURE ts oc in
+    if res_ok (cmd_result ts oc)
+    then (Some (mkSys E_CONFIGURED ts' ncalls),
+          mkSO 3 false false [1; 2; 3] (cmded_view ts) (tasks_view ts'))
+    else (None, mkSO 0 true false [1; 2; 5; 6] (cmded_view ts) []).
 
 (* a task dies while the environment is idle (Mesos TASK_FAILED for an owned task): state ERROR,
    status INACTIVE; a critical one takes the environment to ERROR through the watcher (Watcher.v
@@ -272,7 +272,8 @@ Definition step (o : op) (s : sys) : sys * step_obs :=
   | OKill i => idle_kill i s
   end.
 
-(* a history: the harness (and the model) stop at the first request that hangs or leaves the
+(* a history: the harness (and the model) stop at the first request that hangs (the model never
+   does; the field stays because the implementation is observed with a watchdog) or leaves the
    environment in ERROR *)
 Fixpoint run_ops (ops : list op) (s : sys) : list step_obs :=
   match ops with
@@ -314,12 +315,12 @@ Definition corr02 (c : c02_case) : bool := list_eqb so_eqb (run_model (c_in c)) 
    Violation classes (one per step; the case reports the one of highest priority):
     1  the request failed although every critical task got there (not one of 3..7)
     2  the destination state was reached / reported although a critical task did not get there
-    3  START/STOP/RESET with no task to command fails instead of succeeding at once      (C02-a)
-    4  CONFIGURE with no task to command never returns                                    (C02-a)
-    5  the only commanded task is non-critical and its failure fails the transition       (C02-b)
-    6  DEPLOY fails because a non-critical task did not become active                     (C02-c)
-    7  DEPLOY of a workflow without any role fails                                        (C02-a)
-    8  a failed transition is answered without an error (state ERROR in an OK reply)      (C02-d)
+    3  START/STOP/RESET with no task to command fails instead of succeeding at once   (repaired C02-a)
+    4  CONFIGURE with no task to command never returns                                (repaired C02-a2)
+    5  the only commanded task is non-critical and its failure fails the transition   (repaired C02-b)
+    6  DEPLOY fails because a non-critical task did not become active                 (finding C02-c)
+    7  DEPLOY of a workflow without any role fails                                    (finding C02-a3)
+    8  a failed transition is answered without an error (state ERROR in an OK reply)  (repaired C02-d)
     9  a failed transition does not leave the environment in ERROR
    10  the destination state is published although the transition failed
    11  the commanded tasks are not exactly the tasks whose role was ACTIVE
@@ -463,7 +464,7 @@ Definition mon02 (c : c02_case) : N := pick02 (mon_codes c).
 (* ------------------------------------------------------------------ *)
 (* 7. Branch tags (measured input distribution)                        *)
 (* ------------------------------------------------------------------ *)
-(* bit set: 1 creation fails in DEPLOY, 2 creation fails in CONFIGURE, 4 a request hangs,
+(* bit set: 1 creation fails in DEPLOY, 2 creation fails in CONFIGURE, 4 a request hangs (never),
    8 a command with no target, 16 with one target, 32 with several, 64 a command fails,
    128 a non-critical failure is tolerated, 256 an idle death, 512 request in the wrong state *)
 Definition noncrit_err (rs : list (bool * bool)) : bool := existsb (fun r => negb (fst r) && snd r) rs.
@@ -471,7 +472,7 @@ Definition noncrit_err (rs : list (bool * bool)) : bool := existsb (fun r => neg
 Definition tag_cmd (ts : list rtask) (oc : list outc) : N :=
   let rs := commit (targets ts) oc in
   (match rs with [] => 8 | [_] => 16 | _ => 32 end) +
-  (if res_ok (classify (consolidate rs)) then (if noncrit_err rs then 128 else 0) else 64).
+  (if res_ok (cmd_result ts oc) then (if noncrit_err rs then 128 else 0) else 64).
 
 Fixpoint tag_ops (ops : list op) (s : sys) : N :=
   match ops with
